@@ -8,7 +8,7 @@ from ... import ir
 from .nodes.types import BasicType
 from .nodes import types, expressions
 from .utils import required_padding
-from .eval import ConstantExpressionEvaluator
+from .eval import ConstantExpressionEvaluator, c_wrap
 
 
 class CContext:
@@ -293,6 +293,11 @@ class CContext:
         fmt = self.ctypes_names[tid]
         # Check format with arch options:
         assert self.sizeof(typ) == struct.calcsize(fmt)
+        if fmt[-1] in "bBhHiIlLqQ" and isinstance(value, int):
+            # Conversion to an integer or pointer type: reduce the value
+            # modulo 2^N (C11 6.3.1.3, implementation defined when signed).
+            bits = 8 * struct.calcsize(fmt)
+            value = c_wrap(value, bits, fmt[-1].islower())
         return struct.pack(fmt, value)
 
     def _make_ival(self, typ, ival):
